@@ -90,24 +90,22 @@ def opJudge (judge : Schema → GType → GoVal → Bool) (args : List String) :
     | _, _ => "bad-tree"
   | _ => "bad-sexp"
 
-/-- conformsl <6 bits: enumFold typenameKey numericStrings fractionalInt jsonNumberAsString flatNested> (list schema type val…) -/
-def opConformsL : List String → String
-  | bits :: rest =>
-    match bits.toList.map (fun c => c == '1') with
-    | [a, b, c, d, e, f] =>
-      opJudge (conformsWith { enumFold := a, typenameKey := b, numericStrings := c, fractionalInt := d,
-                              jsonNumberAsString := e, flatNested := f }) rest
-    | _ => "bad-bits"
-  | _ => "bad-args"
-
-def bitsLeniency (bits : String) : Option Leniency :=
+/-- 5 bits: typenameKey single strictNumStr strictFracInt strictJsonNumber -/
+def bitsReading (bits : String) : Option Reading :=
   match bits.toList.map (fun c => c == '1') with
-  | [a, b, c, d, e, f] => some { enumFold := a, typenameKey := b, numericStrings := c, fractionalInt := d,
-                                 jsonNumberAsString := e, flatNested := f }
+  | [a, b, c, d, e] => some { typenameKey := a, single := b, strictNumStr := c, strictFracInt := d, strictJsonNumber := e }
   | _ => none
 
+/-- conformsl <5 bits> (list schema type val…) -/
+def opConformsL : List String → String
+  | bits :: rest =>
+    match bitsReading bits with
+    | some L => opJudge (conformsWith L) rest
+    | none => "bad-bits"
+  | _ => "bad-args"
+
 /-- judge <bits,bits,…> <bits,bits,…> (list schema type (list result…) (list supplied…)):
-    for every leniency of the first group the verdicts on the results, then for every leniency of
+    for every reading of the first group the verdicts on the results, then for every reading of
     the second group the verdicts on the supplied values; groups separated by "|", verdicts are 0/1 characters -/
 def opJudgeMany : List String → String
   | rb :: sb :: rest =>
@@ -116,7 +114,7 @@ def opJudgeMany : List String → String
       match Wire.dSchema sch, Wire.dType ty, rs.mapM Wire.dGoVal, ss.mapM Wire.dGoVal with
       | some s, some t, some rs, some ss =>
         let run (bits : String) (vals : List GoVal) : String :=
-          match bitsLeniency bits with
+          match bitsReading bits with
           | none => "bad-bits"
           | some L => String.ofList (vals.map fun v => if conformsWith L s t v then '1' else '0')
         "|".intercalate (((rb.splitOn ",").map fun b => run b rs) ++ ((sb.splitOn ",").map fun b => run b ss))
